@@ -8,9 +8,9 @@
       reference grammar by the modelled edits (and by `save`) satisfies — leaf buffers are serialised
       nodes of the grammar, rebuilt nodes carry well-formed fields, volumes carry a well-formed header;
     * `GoodSec / GoodFile / GoodFv`: the conditions on the *written* tree under which fiano's own reader
-      takes the saved bytes back (every buffer below 16 MiB, no volume left with exactly 24 free
-      bytes, no header-only file at the very end of a full volume — the last two are defects of the
-      reader found while proving `reparse_abs`, see reports/C03.md).
+      takes the saved bytes back (every buffer below 16 MiB, fewer than 2^30 files per volume; the two
+      reader defects found while proving `reparse_abs` — 24 free bytes behind an unaligned end, a
+      header-only file at the very end of a full volume — are repaired and no longer excluded).
 -/
 import FianoModel.Uefi.ExactPlace
 import FianoModel.Uefi.AbsLemmas
@@ -163,11 +163,6 @@ def CanonElems : List BiosElem → Prop
 
 /-! ### conditions on the written tree -/
 
-def lastBufLen : List File → Nat
-  | [] => 0
-  | [f] => f.buf.length
-  | _ :: fs => lastBufLen fs
-
 mutual
 def GoodSec : Section → Prop
   | .mk _ buf encap => buf.length < B ∧ GoodNodes encap
@@ -183,13 +178,13 @@ def GoodFile : File → Prop
 def GoodFiles : List File → Prop
   | [] => True
   | f :: fs => GoodFile f ∧ GoodFiles fs
-/-- the written volume: below 16 MiB, fewer than 2^30 files; not exactly 24 free bytes (fiano's reader takes them for a
-    truncated extended header); when there is no free space, the last file is more than a header
-    (the reader stops 24 bytes before the end of the volume) -/
+/-- the written volume: below 16 MiB, fewer than 2^30 files.  (Round 3, wp-c03c: the two clauses
+    "not exactly 24 free bytes" and "no header-only last file in a full volume" are gone — fiano's reader
+    was repaired, fixes 8039e86 / cce350a, and the grammar of C01 lost `htail` and the strict header
+    position.) -/
 def GoodFv : Fv → Prop
-  | .mk i buf files =>
-    buf.length < B ∧ files.length < 2 ^ 30 ∧
-      (files ≠ [] → i.freeSpace ≠ 24 ∧ (i.freeSpace = 0 → lastBufLen files ≠ 24)) ∧ GoodFiles files
+  | .mk _ buf files =>
+    buf.length < B ∧ files.length < 2 ^ 30 ∧ GoodFiles files
 end
 
 def GoodElems : List BiosElem → Prop
